@@ -109,6 +109,8 @@ def build_transformer(spec):
         return ConditionalDeseasonalizer(sp=p.get("sp", 4), model=p.get("model", "additive"))
     if kind == "boxcox":
         from sktime.transformations.series.boxcox import BoxCoxTransformer
+        if isinstance(p.get("bounds"), list):
+            p["bounds"] = tuple(p["bounds"])
         return BoxCoxTransformer(**p)
     if kind == "log":
         from sktime.transformations.series.boxcox import LogTransformer
@@ -304,7 +306,7 @@ TRANSFORMERS = [
     ["scaler", {"which": "standard"}],
     ["scaler", {"which": "minmax"}],
     ["log", {}],
-    ["boxcox", {}],
+    ["boxcox", {"bounds": [0, 2]}],   # bounded lambda: the unbounded MLE degenerates numerically on short, flat series
     ["deseason", {"sp": 4, "model": "multiplicative"}],
     ["optional", {"passthrough": False}, ["detrend", {"degree": 1}]],
     ["optional", {"passthrough": True}, ["log", {}]],
@@ -312,21 +314,40 @@ TRANSFORMERS = [
 ]
 
 
-def random_spec(rng, depth=2, allow_slow=False, allow_fh_required=True):
-    """random composite up to `depth` levels"""
+def _t_needs_positive(t):
+    tt = t[2] if t[0] == "optional" else t
+    return tt[0] in ("boxcox", "log") or (tt[0] in ("deseason", "cdeseason") and tt[1].get("model") == "multiplicative")
+
+
+def _t_keeps_positive(t):
+    if t[0] == "optional":
+        return t[1].get("passthrough", False) or _t_keeps_positive(t[2])
+    return t[0] in ("deseason", "cdeseason") and t[1].get("model") == "multiplicative"
+
+
+def random_spec(rng, depth=2, allow_slow=False, allow_fh_required=True, positive=True):
+    """random composite up to `depth` levels; `positive` says whether the data reaching this forecaster are positive
+    (transformers / forecasters that need positive data are only generated where that is guaranteed)"""
     leaves = LEAVES + (SLOW_LEAVES if allow_slow else [])
     if not allow_fh_required:
         leaves = [s for s in leaves if not requires_fh_in_fit(s)]
+    if not positive:
+        leaves = [s for s in leaves if not needs_positive(s)]
     if depth <= 0 or rng.random() < 0.3:
         return leaves[int(rng.integers(0, len(leaves)))]
     kind = ["ensemble", "pipeline", "multiplex", "stack" if allow_fh_required else "ensemble"][int(rng.integers(0, 4))]
-    sub = lambda: random_spec(rng, depth - 1, allow_slow, allow_fh_required)  # noqa
+    sub = lambda pos=positive: random_spec(rng, depth - 1, allow_slow, allow_fh_required, pos)  # noqa
     if kind == "ensemble":
         return ["ensemble", {"aggfunc": ["mean", "median", "min", "max"][int(rng.integers(0, 4))]}, [sub() for _ in range(int(rng.integers(2, 4)))]]
     if kind == "pipeline":
         k = int(rng.integers(1, 3))
-        ts = [TRANSFORMERS[int(rng.integers(0, len(TRANSFORMERS)))] for _ in range(k)]
-        return ["pipeline", {}, ts, sub()]
+        ts, pos = [], positive
+        for j in range(k):
+            pool = [t for t in TRANSFORMERS if pos or not _t_needs_positive(t)]
+            t = pool[int(rng.integers(0, len(pool)))]
+            ts.append(t)
+            pos = pos and _t_keeps_positive(t)
+        return ["pipeline", {}, ts, sub(pos)]
     if kind == "multiplex":
         m = [sub() for _ in range(int(rng.integers(2, 4)))]
         return ["multiplex", {"selected": int(rng.integers(0, len(m)))}, m]
